@@ -11,6 +11,7 @@ import orderdom
 from facts import const_int
 from ruleutil import find_fn, run_mustflow, raw_amount_ops
 import wildarms
+import totaliter
 
 EXPLANATION = (
     "Fee sufficiency is enforced by a final gate; the structural facts it rests on are decided for all inputs: (MP) every Ok path of "
@@ -184,6 +185,7 @@ def check(rep, F, tier, replay=None):
             rep.violation("A-noraw", "%s|%s|%s" % (F.key(sub), op, ty), "%s uses the raw operator %s on %s at %s" % (F.key(sub), op, ty, facts.loc_str(loc, F.fns[sub])), {})
     # signer / witness / reference-script enumerations feeding the size and fee: no variant silently dropped into a wildcard arm
     wildarms.check(rep, F, "C06")
+    totaliter.check(rep, F, "C06")
     return rep.finish(
         EXPLANATION,
         ["fees::min_fee / min_script_fee / min_ref_script_fee compute the ledger formulas (C15)", "fake witnesses have the byte size of real ones (fakes.rs constants)", "the signer union being complete per source is C18's matrix"],
